@@ -195,6 +195,8 @@ CONTRACTS = {
                      '__CPROVER_is_fresh(ent, sizeof(*ent))', 'self->generation < 16', 'ghost_j < self->usedSize && ghost_k < self->usedSize',
                      '0 <= ply && ply <= 700',
                      # ent is a record as insert() writes them: promotion code of the move below 13, score within the mate range at this ply
+                     # (the only call site, negaScout, calls setBusy for entries of a type other than T_EMPTY)
+                     'spec_rec_type(ent->data) != TType_T_EMPTY',
                      '((spec_rec_move(ent->data) >> 12) & 15) < 13', '-SearchConst_MATE0 <= spec_rec_score(ent->data, ply) && spec_rec_score(ent->data, ply) <= SearchConst_MATE0'],
         'assigns': ['__CPROVER_object_whole(self->table)'],
         'ensures': [
